@@ -352,14 +352,16 @@ def run(ck: Checker):
             got = e.exc_name
         fnn = 'fix_gate' if lab.startswith('fix') else 'forbid_wire'
         ck.check(got == exc, 'C06.FIX', m, m.func(f'CircuitFinderSat.{fnn}'), f'{lab} is refused with {exc}', f'{got}', construct=f'{lab} refused')
-    for fnn in ('fix_gate', 'forbid_wire'):
-        f = m.func(f'CircuitFinderSat.{fnn}')
-        from ..core import body_without_doc
-        b = body_without_doc(f)
-        ck.check(b and norm(b[0]) == 'self._need_check_db = False', 'C06.FIX', m, f, f'{fnn} disables the database shortcut before anything else',
-                 f'first statement is `{norm(b[0]) if b else None}`', construct=f'{fnn}: _need_check_db = False first')
-    fc = m.func('CircuitFinderSat.find_circuit')
-    ck.check('if circuit_db is not None and self._need_check_db:' in norm(fc), 'C06.FIX', m, fc, 'the database answer is used only when no constraint was imposed', 'guard changed', construct='find_circuit database guard')
+    # (shape of the same clause: decided by the database scenarios of C06.FIND)
+    with ck.soft('C06.FIND (find_circuit with a recording database, with and without constraints)'):
+        for fnn in ('fix_gate', 'forbid_wire'):
+            f = m.func(f'CircuitFinderSat.{fnn}')
+            from ..core import body_without_doc
+            b = body_without_doc(f)
+            ck.check(b and norm(b[0]) == 'self._need_check_db = False', 'C06.FIX', m, f, f'{fnn} disables the database shortcut before anything else',
+                     f'first statement is `{norm(b[0]) if b else None}`', construct=f'{fnn}: _need_check_db = False first')
+        fc = m.func('CircuitFinderSat.find_circuit')
+        ck.check('if circuit_db is not None and self._need_check_db:' in norm(fc), 'C06.FIX', m, fc, 'the database answer is used only when no constraint was imposed', 'guard changed', construct='find_circuit database guard')
     ck.floor('C06.FIX', 23)
 
     # ---- DEC ----
@@ -581,6 +583,46 @@ def find_rule(ck: Checker, F, R='C06.FIND'):
                 if want or e.exc_name != 'NoSolutionError':
                     probs.append(f'after a normalised search in {first} was set up, the search for {rs} with one gate in {bname} raises {e.exc_name}')
     ck.check(not probs, R, m, fn, 'searches set up earlier in the process (a normalised one in XAIG, then one in FULL) do not change what later searches find', '; '.join(probs[:2]), construct='independent finders')
+    # the database shortcut: used for an unconstrained finder (a stored circuit that is small enough is the answer, one that is
+    # too large means "no solution"), never once a constraint was imposed
+    class _Db(Host):
+        def __init__(self, answer):
+            self.answer, self.calls = answer, []
+
+        def get_by_raw_truth_table_model(self, tt):
+            self.calls.append([list(r) for r in tt])
+            return self.answer
+
+    class _Stored(Host):
+        def __init__(self, n):
+            self.n = n
+
+        def gates_number(self, *a, **k):
+            return self.n
+    probs = []
+    row = [Fv, Fv, Fv, T]       # AND: two AIG gates can compute it whatever single wire or predecessor is fixed below
+    small, large = _Stored(1), _Stored(5)
+    for desc, stored, constrain, want in (('a stored circuit of admissible size', small, None, 'stored'), ('a stored circuit that is too large', large, None, 'NoSolutionError'),
+                                          ('a database without the function', None, None, 'search'), ('forbid_wire before the search', small, ('forbid_wire', (0, 3)), 'search'),
+                                          ('fix_gate before the search', small, ('fix_gate', (2,), {'first_predecessor': 0}), 'search'),
+                                          ('forbid_wire before the search, stored circuit too large', large, ('forbid_wire', (0, 3)), 'search')):
+        inst = F.new([row], 2, 'AIG')
+        db = _Db(stored)
+        try:
+            if constrain:
+                F.call(inst, constrain[0], *constrain[1], **(constrain[2] if len(constrain) > 2 else {}))
+            got = F.call(inst, 'find_circuit', circuit_db=db)
+            outcome = 'stored' if got is stored and stored is not None else 'search'
+            if outcome == 'search' and (not hasattr(got, '_gates') or table_of(got) != [row]):
+                outcome = f'a result that does not compute the function ({got!r})'
+        except InterpRaise as e:
+            outcome = e.exc_name
+        if outcome != want:
+            probs.append(f'{desc}: find_circuit(circuit_db=...) ends with {outcome}, expected {want}')
+        elif want in ('stored', 'NoSolutionError') and db.calls != [[row]]:
+            probs.append(f'{desc}: the database was asked {db.calls} instead of once for the truth table of the finder')
+    ck.check(not probs, R, m, fn, 'the database shortcut of find_circuit: the stored circuit is the answer when it is small enough, NoSolutionError when it is too large, a search when the database has nothing, and always a search once fix_gate / forbid_wire was called',
+             '; '.join(probs[:2]), construct='find_circuit with a circuit database')
     ck.assume('find_circuit is folded end to end for two-input functions and at most two gates only, with a model solver in place of pysat')
 
 
